@@ -280,7 +280,7 @@ def realisations(chain, rng, work, thorough):
     b = build_hds_mem(chain, rng, rng.choice([4096, 65536]), rng.choice([1, 2]))
     if b:
         yield "hds-mem", b, None
-    r = build_hdd_disk(chain, rng, work)
+    r = build_hdd_disk(chain, rng, work, top_default=rng.random() < 0.5)
     if r:
         yield "hdd-disk", r[0], r[1]
     yield ("vmdk-disk",) + build_vmdk_disk(chain, rng, work, rng.choice([8, 128]), rng.choice(["same", "sibling"]))
@@ -335,3 +335,179 @@ def run(ctx):
         sts = [s for s in sts if len(s["chain"]) > 1]
         sts = rng.sample(sts, min(len(sts), 160))
     direction_A(ctx, sts, thorough)
+    direction_B(ctx, thorough)
+
+
+# ---------------------------------------------------------------- direction B: random chains at real geometry
+def trace_vhdx_chain(tid, rng, nops):
+    from dissect.hypervisor.disk.vhdx import VHDX
+
+    sector = rng.choice([512, 512, 4096])
+    bs = 1 << 20
+    spb = bs // sector
+    nb = rng.randrange(1, 4)
+    depth = rng.randrange(2, 5)
+    work = tempfile.mkdtemp(prefix="verif-c07b-")
+    try:
+        names = [f"l{i}.{'vhdx' if i == depth - 1 else 'avhdx'}" for i in range(depth)]
+        layers, bases = [], []
+        win = min(spb, 96)
+        for i in range(depth):
+            is_base = i == depth - 1
+            blocks, st, pp, bm, bitmaps = [], [], [], [], {}
+            allbits = bytearray((2 ** 23) // 8 if False else spb * nb // 8 + 8)
+            for b in range(nb):
+                if is_base:
+                    s_ = rng.choice([6, 6, 2, 0, 3])
+                else:
+                    s_ = rng.choice([7, 7, 7, 0, 6, 2])
+                p = b if s_ in (6, 7) else None
+                present = []
+                if s_ == 7:
+                    style = rng.random()
+                    if style < 0.4:
+                        present = [x for x in range(win) if rng.random() < 0.5]
+                    elif style < 0.7:
+                        lo = rng.randrange(0, win)
+                        hi = rng.randrange(lo, win + 1)
+                        present = list(range(lo, hi))
+                    else:
+                        present = [x for x in range(win) if (x // rng.choice([1, 3, 8])) % 2 == 0]
+                    for x in present:
+                        g = b * spb + x
+                        allbits[g // 8] |= 1 << (g % 8)
+                blocks.append((s_, p))
+                st.append(s_)
+                pp.append(p if p is not None else 0)
+                bm.append(present)
+            loc = None
+            if not is_base:
+                loc = {"parent_linkage": "{11111111-2222-3333-4444-555555555555}", "relative_path": ".\\" + names[i + 1],
+                       "absolute_win32_path": "C:\\nowhere\\" + names[i + 1]}
+            vf, info = enc_vhdx.build(blocks, block_size=bs, sector_size=sector, disk_size=nb * bs, has_parent=not is_base, locator=loc,
+                                      bitmaps=({0: bytes(allbits)} if any(s_ == 7 for s_ in st) else None), file_id=i)
+            vf.materialise(os.path.join(work, names[i]))
+            layers.append({"fmt": "vhdx", "img": {"n": nb, "cb": spb, "st": st, "p": pp, "bm": bm, "size": nb * spb, "parent": not is_base}})
+            bases.append(info["data_base"])
+        top = os.path.join(work, names[0])
+        s = VHDX(Path(top))
+        fresh = VHDX(Path(top))
+        size_b = nb * bs
+        rec = record.Recorder(s, size_b, probe=fresh.readoffset)
+        for _ in range(nops):
+            b = rng.randrange(nb)
+            r = rng.random()
+            if r < 0.6:
+                s0 = rng.randrange(0, win + 4)
+                c = rng.randrange(1, 24)
+                if b * spb + s0 + c <= nb * spb:
+                    rec.sectors(s.read_sectors, b * spb + s0, c, sector)
+            elif r < 0.9:
+                o = b * bs + rng.randrange(0, (win + 8) * sector)
+                n = rng.choice([sector, 3 * sector, 8192, 12345, 16 * sector + 7])
+                rec.readoffset(o - o % 8, n - n % 8 if n < 16 else n)
+            else:
+                rec.seek(rng.randrange(0, size_b))
+                rec.read(rng.choice([4096, 65536]))
+        geo = {"cellB": sector, "cb": spb, "stride": bs, "bases": bases, "pbase": 0}
+        return {"tid": tid, "fmt": "chain", "kind": "vhdx", "chain": layers, "sizeB": size_b, "sector": sector, "geo": geo, "events": rec.events}
+    finally:
+        shutil.rmtree(work, ignore_errors=True)
+
+
+def trace_qcow2_chain(tid, rng, nops):
+    from dissect.hypervisor.disk.qcow2 import QCow2
+
+    cb = rng.choice([14, 16])
+    cs = 1 << cb
+    nc = rng.randrange(2, 8)
+    depth = rng.randrange(2, 5)
+    vfs, layers, bases = [], [], []
+    for i in range(depth):
+        is_base = i == depth - 1
+        pos = list(range(1, nc + 2))
+        rng.shuffle(pos)
+        t, h, al, ze, l2 = [], [], [], [], {}
+        for c in range(nc):
+            k = rng.choice(["U", "N", "N", "N"])
+            a = z = 0
+            style = rng.random()
+            if style < 0.4:
+                a = rng.getrandbits(32)
+                z = rng.getrandbits(32) & ~a
+            elif style < 0.7:
+                lo = rng.randrange(0, 32)
+                hi = rng.randrange(lo, 33)
+                a = ((1 << hi) - 1) & ~((1 << lo) - 1)
+                z = rng.choice([0, (1 << lo) - 1])
+            else:
+                a = rng.choice([0xFFFFFFFF, 0x0000FFFF, 0x55555555, 0x80000001, 0])
+                z = rng.choice([0, ~a & 0xFF00FF00])
+            if k == "U":
+                a = 0
+            hh = pos.pop() if k == "N" else 0
+            t.append(k); h.append(hh); al.append(a); ze.append(z)
+            l2[c] = {"t": k, "h": hh, "sub": ["A" if (a >> b) & 1 else "Z" if (z >> b) & 1 else "U" for b in range(32)]}
+        img = {"ext": True, "datafile": False, "l2n": cs // 16, "s": 32, "l1": {0: True}, "l2": l2, "back": (-1 if is_base else nc * 32), "size": nc * 32}
+        vf, _, info = enc_qcow2.build(img, cluster_bits=cb, K=1, file_id=i)
+        vfs.append(vf)
+        bases.append(info["data_base"])
+        layers.append({"fmt": "qcow2", "img": {"ext": True, "datafile": False, "nc": nc, "s": 32, "t": t, "h": h,
+                                               "al_lo": [a & 0xFFFF for a in al], "al_hi": [a >> 16 for a in al],
+                                               "ze_lo": [z & 0xFFFF for z in ze], "ze_hi": [z >> 16 for z in ze],
+                                               "back": (-1 if is_base else nc * 32)}})
+
+    def opener():
+        obj = None
+        for vf in reversed(vfs):
+            vf.seek(0)
+            obj = QCow2(vf, backing_file=obj)
+        return obj
+
+    size_b = nc * cs
+    s, fresh = opener(), opener()
+    rec = record.Recorder(s, size_b, probe=fresh.readoffset)
+    record.random_ops(rec, rng, size_b, nops, unit=cs // 32, big=min(3 * cs, 1 << 20))
+    geo = {"cellB": cs // 32, "cb": 1, "stride": cs // 32, "bases": bases, "pbase": 0}
+    return {"tid": tid, "fmt": "chain", "kind": "qcow2", "chain": layers, "sizeB": size_b, "sector": 512, "geo": geo, "events": rec.events}
+
+
+def trace_vdi_chain(tid, rng, nops):
+    from dissect.hypervisor.disk.vdi import VDI
+
+    bs = rng.choice([4096, 65536, 1 << 20])
+    n = rng.randrange(2, 12)
+    depth = rng.randrange(2, 5)
+    vfs, layers, bases = [], [], []
+    for i in range(depth):
+        pos = _perm(rng, n + 1)
+        mp = [(-1 if rng.random() < 0.45 else -2 if rng.random() < 0.2 else pos.pop()) for _ in range(n)]
+        vf, cell, doff, _ = enc_vdi.build({"n": n, "cb": 1, "map": {c: mp[c] for c in range(n)}, "size": n, "parent": i < depth - 1},
+                                          block_size=bs, file_id=i, P=n + 1)
+        vfs.append(vf)
+        bases.append(doff)
+        layers.append({"fmt": "vdi", "img": {"n": n, "map": mp, "parent": i < depth - 1}})
+
+    def opener():
+        obj = None
+        for vf in reversed(vfs):
+            vf.seek(0)
+            obj = VDI(vf, parent=obj)
+        return obj
+
+    size_b = n * bs
+    s, fresh = opener(), opener()
+    rec = record.Recorder(s, size_b, probe=fresh.readoffset)
+    record.random_ops(rec, rng, size_b, nops, unit=bs, big=min(3 * bs + 4096, 4 << 20))
+    geo = {"cellB": bs, "cb": 1, "stride": bs, "bases": bases, "pbase": 0}
+    return {"tid": tid, "fmt": "chain", "kind": "vdi", "chain": layers, "sizeB": size_b, "sector": 512, "geo": geo, "events": rec.events}
+
+
+def direction_B(ctx, thorough):
+    makers = [trace_vhdx_chain, trace_vhdx_chain, trace_qcow2_chain, trace_vdi_chain]
+
+    def mk(tid, rng):
+        return makers[tid % len(makers)](tid, rng, 60 if thorough else 30)
+
+    diskprop.traces(ctx, "chain", mk, 240 if thorough else 48, "TraceDisk", "TraceDisk.cfg",
+                    lambda t: {"format": "chain", "kind": t["kind"], "depth": len(t["chain"]), "mode": "B"}, label="random chains")
